@@ -195,6 +195,8 @@ def _parse_title(title: str, lit: LineIterator) -> tuple[list[tuple], dict[str]]
         "charge": ("charge", float),
     }
     data = {}
+    # Without a Properties key, the atom lines have the plain XYZ columns (species and position).
+    atom_columns = None
     for key_value_pair in key_value_pairs:
         if "=" in key_value_pair:
             key, value = key_value_pair.split("=", 1)
